@@ -47,13 +47,13 @@ def expand(word):
             out.append(("str", sym))
         elif sym.startswith("text:"):
             out.append(("ml", sym))
+        elif " " in sym:
+            for s in sym.split():
+                one(s)
         elif sym.startswith(":"):
             out.append(("tag", sym))
         elif sym[0].isdigit():
             out.append(("num", sym))
-        elif " " in sym:
-            for s in sym.split():
-                one(s)
         else:
             out.append(("id", sym))
 
@@ -63,6 +63,7 @@ def expand(word):
 
 
 LAYOUTS = ("space", "lf", "crlf", "comments", "upper", "blank")
+MIXED_SEPS = (b" ", b"\n", b" /* \xc3\xa9 */ ", b"\r\n", b" # \xc3\xa9\xc3\xa9\n", b"\t", b"\n\n  ")
 MULTILINE_LAYOUTS = ("lf", "crlf", "comments")
 
 
@@ -100,6 +101,8 @@ def render(word, layout="space", raw=None):
             parts.append(b" # c \xc3\xa9\xc3\xa9 ;{\n" if i % 2 == 0 else b" /* c \xc3\xa9 ; { */\n")
         elif layout == "blank":
             parts.append(b"\t \n\n ")
+        elif layout == "mixed":
+            parts.append(MIXED_SEPS[i % len(MIXED_SEPS)])
         else:
             raise ValueError(layout)
     body = b"".join(parts)
